@@ -145,12 +145,34 @@ def patched(cpu=8, cpu_raises=False):
             setattr(server, n, saved[n])
 
 
+class FeedTimeout(Exception):
+    """the library did not come back from handling one request line within FEED_LIMIT seconds (single-threaded inert
+    mode: it is blocked for good, e.g. on a synchronisation primitive nobody will release)"""
+
+
+FEED_LIMIT = 8.0
+
+
 def feed(srv, line):
     """deliver one request line on the calling thread, then run the jobs it queued"""
-    srv.on_received_request(line)
-    ex = find_executor(srv)
-    if hasattr(ex, 'run_jobs'):
-        ex.run_jobs()
+    import signal
+    import threading
+
+    def on_alarm(signum, frame):
+        raise FeedTimeout('blocked for more than %s s while handling %r' % (FEED_LIMIT, line[:60]))
+    use_alarm = threading.current_thread() is threading.main_thread()
+    if use_alarm:
+        old = signal.signal(signal.SIGALRM, on_alarm)
+        signal.setitimer(signal.ITIMER_REAL, FEED_LIMIT)
+    try:
+        srv.on_received_request(line)
+        ex = find_executor(srv)
+        if hasattr(ex, 'run_jobs'):
+            ex.run_jobs()
+    finally:
+        if use_alarm:
+            signal.setitimer(signal.ITIMER_REAL, 0)
+            signal.signal(signal.SIGALRM, old)
 
 
 def set_logging(debug):
